@@ -385,6 +385,39 @@ func wireOf(e dg.MapEntry) string {
 	return e.Wire
 }
 
+// inlineBodyIsDefault: the explicit body is the inline form Body(func(){ Attribute… }) listing
+// exactly the payload attributes that are mapped nowhere else — the body the model computes.
+func inlineBodyIsDefault(d *dg.Design, m *dg.Method, vars []string) bool {
+	h := m.HTTP
+	if h.Body == nil || h.Body.Attr != "" || h.Body.Empty || m.Payload == nil {
+		return false
+	}
+	if bt, _ := d.Base(&m.Payload.T); bt.Kind != "object" {
+		return false
+	}
+	mapped := map[string]bool{}
+	for _, v := range vars {
+		mapped[v] = true
+	}
+	for _, e := range append(append(append([]dg.MapEntry{}, h.Params...), h.Headers...), h.Cookies...) {
+		mapped[e.Attr] = true
+	}
+	listed := map[string]bool{}
+	for _, a := range h.Body.Attrs {
+		listed[a] = true
+	}
+	n := 0
+	for _, f := range d.AllFields(&m.Payload.T) {
+		if !mapped[f.Name] {
+			n++
+			if !listed[f.Name] {
+				return false
+			}
+		}
+	}
+	return n == len(h.Body.Attrs)
+}
+
 // rawRequest derives the raw request side of a method from designgen data only.
 func rawRequest(d *dg.Design, m *dg.Method, vars []string) rawSide {
 	var rs rawSide
@@ -393,7 +426,7 @@ func rawRequest(d *dg.Design, m *dg.Method, vars []string) rawSide {
 		rs.skip = "no-http"
 		return rs
 	}
-	if h.MapParams != "" || h.Multipart || h.SkipReq || h.Body != nil {
+	if h.MapParams != "" || h.Multipart || h.SkipReq || (h.Body != nil && !inlineBodyIsDefault(d, m, vars)) {
 		rs.skip = "mapparams/multipart/skip/body-override"
 		return rs
 	}
